@@ -112,14 +112,14 @@ var undecided = map[string][]string{
 	"C14": {"PointInPolygon: the three-way classification for arbitrary polygons (bounded stand-in only)", "Area64 when the exact sum leaves int64 (known finding F16 region)"},
 	"C15": {"closed paths beyond the bound: sub-sequence in order, area unchanged, no collinear triple left, idempotence (bounded stand-in only)"},
 	"C16": {"exit condition and termination of the main loop beyond the bound (bounded stand-in only)", "epsilon 0 area preservation beyond the bound"},
-	"C01": {"the region statement itself: composition of the lemmas through the sweep (AEL order, intersection schedule, joins, horizontals, cleanCollinear / fixSelfIntersects / doSplitOp)"},
+	"C01": {"the region statement itself beyond the sampled stand-in: composition of the lemmas through the sweep (AEL order, intersection schedule, joins, horizontals, cleanCollinear / fixSelfIntersects / doSplitOp)"},
 	"C19": {"the area inequalities (need the region statement of C01)"},
 	"C09": {"coverage of the subject lines, cutting at intersections (open/closed branch of intersectEdges), open ends at maxima and horizontals, emission"},
 	"C07": {"BooleanOpPathsD / PolyTreeD / InflatePathsD composition with their 64-bit counterparts (heap-level engines)", "ScaleRectD rounding (known finding F8)", "NewClipperD(0) (known finding F17)"},
 	"C08": {"the NonZero union of the quads (C01) and commutativity of the resulting region"},
 	"C13": {"region-level translation/scaling invariance of whole operations", "advertised range 2^61 for CrossProduct, dotProduct64, getSegmentIntersectPt (known finding F13)"},
 	"C03": {"termination and nil-safety of the sweep's list walks, Execute's success flag, the rectangle clipper's edge post-pass, offset join constructors (not under contract)"},
-	"C02": {"winding 0/1, orientation signs, >= 3 vertices and first != last (need cleanCollinear's ring postcondition and the sweep)", "reverse option applied consistently (call-site argument of buildPath)"},
+	"C02": {"winding 0/1 beyond the sampled stand-in; orientation signs, >= 3 vertices and first != last (need cleanCollinear's ring postcondition and the sweep)", "reverse option applied consistently (call-site argument of buildPath)"},
 	"C04": {"owner correctness, containment within the parent, IsHole <=> negative orientation, same polygons as the flat result"},
 	"C05": {"both containment clauses, Round's arc tolerance, the negative-delta mirror statement, doSquare / doRound geometry, offsetPoint's case analysis"},
 	"C10": {"end caps (known finding F12), containment clauses, Joined loops, single-point circle"},
